@@ -277,6 +277,17 @@ pub fn run(tier: Tier, seed: u64) -> Report {
     if rep.failed() {
         return rep;
     }
+    // several uploads in flight on one server worker, pieces interleaved
+    let r = engine::replay_dir::<ICase, _>("C06", "interleaved", check_interleaved);
+    rep.absorb("replay-tier-interleaved", r);
+    if rep.failed() {
+        return rep;
+    }
+    let r = engine::explore("C06", "interleaved", seed, tier.pick(400, 12_000), icase, check_interleaved);
+    rep.absorb("interleaved-uploads-one-worker", r);
+    if rep.failed() {
+        return rep;
+    }
     // limit-sized bodies (shared machinery with C15): accepted ones are read back and compared
     let mut cases = limit_cases(tier);
     cases.retain(|c| c.delta <= 0);
@@ -294,6 +305,153 @@ pub fn replay(kind: &str, case_json: &Value, st: &mut Stats) -> CheckResult {
     match kind {
         "payload" => check(&serde_json::from_value(case_json.clone()).map_err(bad)?, st),
         "limit" => check_limit(&serde_json::from_value(case_json.clone()).map_err(bad)?, false, st),
+        "interleaved" => check_interleaved(&serde_json::from_value(case_json.clone()).map_err(bad)?, st),
         _ => Err(Fail::Inconclusive(format!("unknown replay kind {kind}"))),
     }
+}
+
+// ---------------------------------------------------------------------------------------------
+// Uploads in flight at the same time on one server worker: the pieces of several request bodies
+// arrive interleaved in a generated order.  Each upload must still be stored as exactly its own
+// bytes ("however the upload was split into network chunks").
+
+#[derive(Clone, Debug, Serialize, Deserialize, PartialEq, Eq, Hash)]
+pub struct ICase {
+    pub backend: Backend,
+    pub snapshot: bool,
+    /// per upload: the payload and the sizes of the pieces it is sent in (cyclic)
+    pub uploads: Vec<(BytesSpec, Vec<u32>)>,
+    /// which connection sends its next piece (index modulo the number of uploads)
+    pub order: Vec<u8>,
+}
+
+fn icase() -> BoxedStrategy<ICase> {
+    (
+        prop_oneof![Just(Backend::Mem), Just(Backend::Sqlite)],
+        any::<bool>(),
+        proptest::collection::vec(((prop_oneof![3 => 2u32..400, 2 => 1000u32..20_000, 1 => 60_000u32..200_000], 0u8..case::N_CLASSES, 0u32..65536), proptest::collection::vec(1u32..9000, 1..4)), 2..=3),
+        proptest::collection::vec(0u8..3, 2..14),
+    )
+        .prop_map(|(backend, snapshot, ups, order)| ICase { backend, snapshot, uploads: ups.into_iter().map(|((len, class, seed), sizes)| (BytesSpec { len, class, seed }, sizes)).collect(), order })
+        .boxed()
+}
+
+fn check_interleaved(ic: &ICase, st: &mut Stats) -> CheckResult {
+    use std::io::{Read, Write};
+    let cfg = Cfg::default();
+    let sv = |e: anyhow::Error| Fail::Violation(format!("opening storage: {e:#}"));
+    let (storage, _dir): (Arc<dyn Storage>, Option<TempDir>) = match ic.backend {
+        Backend::Mem => (Arc::new(InMemoryStorage::new()), None),
+        Backend::Sqlite => {
+            let d = TempDir::new("c06i");
+            let s = sqlite_factory(d.path().to_path_buf())().map_err(sv)?.served;
+            (s, Some(d))
+        }
+    };
+    let ws = WebServer::new(crate::driver::server_config(&cfg), None, ArcStorage(storage));
+    let srv = SockServer::start(ws).map_err(|e| Fail::Inconclusive(format!("cannot start a socket server: {e:#}")))?;
+    let to = Duration::from_secs(30);
+    let n = ic.uploads.len();
+    let clients: Vec<Uuid> = (0..n).map(|i| case::client_uuid(66, i as u8)).collect();
+    let inconc = |e: SockError| Fail::Inconclusive(format!("socket: {e:?}"));
+    // snapshots need a version to hang off
+    let mut v1 = vec![Uuid::nil(); n];
+    if ic.snapshot {
+        for (i, c) in clients.iter().enumerate() {
+            let r = exchange(srv.addr, &req_add_version(*c, Uuid::nil(), vec![Bytes::from_static(b"first")]), Encoding::ContentLength, &[], to).map_err(inconc)?;
+            match decode(Endpoint::AddVersion, &r) {
+                Outcome::Accepted { id, .. } => v1[i] = id,
+                o => return v(format!("setting up: {}", o.short())),
+            }
+        }
+    }
+    // one connection per upload; its queue: the request head, then the body pieces
+    let bodies: Vec<Vec<u8>> = ic.uploads.iter().map(|(s, _)| s.expand()).collect();
+    let mut conns = vec![];
+    let mut queues: Vec<std::collections::VecDeque<Vec<u8>>> = vec![];
+    for i in 0..n {
+        let s = std::net::TcpStream::connect_timeout(&srv.addr, to).map_err(|e| Fail::Inconclusive(format!("connect: {e}")))?;
+        let _ = s.set_nodelay(true);
+        let _ = s.set_read_timeout(Some(to));
+        let _ = s.set_write_timeout(Some(to));
+        conns.push(s);
+        let (path, ct) = if ic.snapshot { (format!("/v1/client/add-snapshot/{}", v1[i]), crate::driver::CT_SNAP) } else { (format!("/v1/client/add-version/{}", Uuid::nil()), crate::driver::CT_HS) };
+        let head = format!("POST {path} HTTP/1.1\r\nHost: x\r\nConnection: close\r\nX-Client-Id: {}\r\nContent-Type: {ct}\r\nContent-Length: {}\r\n\r\n", clients[i], bodies[i].len());
+        let mut q = std::collections::VecDeque::new();
+        q.push_back(head.into_bytes());
+        let sizes = &ic.uploads[i].1;
+        let mut pos = 0;
+        let mut k = 0;
+        // at least two pieces whenever the body allows
+        let first_cap = (bodies[i].len() / 2).max(1);
+        while pos < bodies[i].len() {
+            let mut sz = (sizes[k % sizes.len()] as usize).max(1);
+            if pos == 0 {
+                sz = sz.min(first_cap);
+            }
+            k += 1;
+            let end = (pos + sz).min(bodies[i].len());
+            q.push_back(bodies[i][pos..end].to_vec());
+            pos = end;
+            if q.len() > 40 {
+                q.push_back(bodies[i][pos..].to_vec());
+                break;
+            }
+        }
+        queues.push(q);
+    }
+    let mut send = |i: usize| -> Result<bool, Fail> {
+        match queues[i].pop_front() {
+            None => Ok(false),
+            Some(piece) => {
+                conns[i].write_all(&piece).and_then(|_| conns[i].flush()).map_err(|e| Fail::Inconclusive(format!("write: {e}")))?;
+                // let the server take the piece in before the next one (of whichever upload) arrives
+                std::thread::sleep(Duration::from_millis(3));
+                Ok(true)
+            }
+        }
+    };
+    let mut interleavings = 0;
+    let mut last = usize::MAX;
+    for o in &ic.order {
+        let i = *o as usize % n;
+        if send(i)? {
+            if last != usize::MAX && last != i {
+                interleavings += 1;
+            }
+            last = i;
+        }
+    }
+    for i in 0..n {
+        while send(i)? {}
+    }
+    // responses
+    for (i, c) in conns.iter_mut().enumerate() {
+        let mut buf = vec![];
+        let _ = c.read_to_end(&mut buf);
+        let Some(r) = crate::sock::parse_response(&buf, false) else { return Err(Fail::Inconclusive(format!("upload {i}: no complete response"))) };
+        if r.status != 200 {
+            return v(format!("upload {i} of {n} concurrent uploads ({} bytes) was answered {}", bodies[i].len(), r.status));
+        }
+    }
+    // every upload is stored as exactly its own bytes
+    for i in 0..n {
+        st.check();
+        let back = if ic.snapshot { exchange(srv.addr, &req_get_snapshot(clients[i]), Encoding::ContentLength, &[], to) } else { exchange(srv.addr, &req_get_child(clients[i], Uuid::nil()), Encoding::ContentLength, &[], to) }.map_err(inconc)?;
+        if back.status != 200 || back.body != bodies[i] {
+            return v(format!(
+                "{n} {} were in flight at the same time on one server worker, their body pieces arriving interleaved (send order {:?}); upload {i} ({} bytes) reads back as status {} with {}",
+                if ic.snapshot { "snapshot uploads" } else { "version uploads" },
+                ic.order,
+                bodies[i].len(),
+                back.status,
+                describe_diff(&bodies[i], &back.body)
+            ));
+        }
+    }
+    st.label(&format!("c06:interleaved:{:?}:{}", ic.backend, if ic.snapshot { "snapshot" } else { "version" }));
+    if interleavings >= 2 {
+        st.nontrivial(&("c06-interleaved", ic.backend, ic.snapshot, ic.order.clone(), bodies.iter().map(|b| b.len()).collect::<Vec<_>>()));
+    }
+    Ok(())
 }
